@@ -13,6 +13,7 @@ import (
 	"math/rand"
 	"os"
 	"sort"
+	"strings"
 	"sync"
 	"time"
 
@@ -91,6 +92,9 @@ type ecluster struct {
 	idem    map[string]*idemState
 	reqs    []reqPart
 	nreq    int
+	rep     *recReporter
+	sentAs  map[string]string // idempotent batches by (partition, producer id, epoch, first sequence, count): the records first received
+	differs []string
 }
 
 type idemBatch struct {
@@ -104,20 +108,33 @@ type idemState struct {
 	cached []idemBatch
 }
 
-type quietReporter struct{}
+// the mock broker reports what it cannot handle through its TestReporter: a request it cannot DECODE ends up here
+// (MockBroker.serverError); "verif: drop" is the scripted connection drop
+type recReporter struct {
+	mu   sync.Mutex
+	errs []string
+}
 
-func (quietReporter) Error(...interface{})          {}
-func (quietReporter) Errorf(string, ...interface{}) {}
-func (quietReporter) Fatal(...interface{})          {}
-func (quietReporter) Fatalf(string, ...interface{}) {}
+func (r *recReporter) note(s string) {
+	if strings.Contains(s, "verif: drop") {
+		return
+	}
+	r.mu.Lock()
+	r.errs = append(r.errs, s)
+	r.mu.Unlock()
+}
+func (r *recReporter) Error(a ...interface{})            { r.note(fmt.Sprint(a...)) }
+func (r *recReporter) Errorf(f string, a ...interface{}) { r.note(f) }
+func (r *recReporter) Fatal(a ...interface{})            { r.note(fmt.Sprint(a...)) }
+func (r *recReporter) Fatalf(f string, a ...interface{}) { r.note(f) }
 
 func newCluster(s *e2eScenario) *ecluster {
-	c := &ecluster{s: s, logEnd: map[string]int64{}, logs: map[string][]logEntry{}, idem: map[string]*idemState{}}
+	c := &ecluster{s: s, logEnd: map[string]int64{}, logs: map[string][]logEntry{}, idem: map[string]*idemState{}, rep: &recReporter{}, sentAs: map[string]string{}}
 	for k, v := range s.Start {
 		c.logEnd[k] = v
 	}
 	for i := 0; i < s.Brokers; i++ {
-		b := sarama.NewMockBroker(quietReporter{}, int32(i+1))
+		b := sarama.NewMockBroker(c.rep, int32(i+1))
 		b.VerifC04SetHandler(c.handle)
 		c.brokers = append(c.brokers, b)
 	}
@@ -208,6 +225,13 @@ func (c *ecluster) produce(r *sarama.ProduceRequest) interface{} {
 				c.idem[sk] = st
 			}
 			nrec = int32(len(b.Records))
+			// a batch received again (same producer id, epoch, first sequence and record count) must be the same records
+			rk := fmt.Sprintf("%s/%d/%d/%d/%d", key, b.ProducerID, b.ProducerEpoch, b.FirstSequence, nrec)
+			if prev, seen := c.sentAs[rk]; !seen {
+				c.sentAs[rk] = coqRecords(p.Decoded)
+			} else if prev != coqRecords(p.Decoded) {
+				c.differs = append(c.differs, rk)
+			}
 			switch {
 			case b.ProducerEpoch < st.epoch:
 				verdict = sarama.ErrInvalidProducerEpoch
@@ -411,6 +435,18 @@ func genE2E(r *rand.Rand, i int) *e2eScenario {
 		} else {
 			m.Key, m.KeyClass = genBytes(r, m.ID, false)
 			m.Val, m.ValClass = []byte(fmt.Sprintf("%d:%d", m.ID, r.Intn(1000))), "id"
+			switch r.Intn(6) { // record bodies on both sides of the 63|64 and 8191|8192 byte marks (varint length prefix of a record)
+			case 0, 1:
+				m.Val = append(m.Val, []byte(strings.Repeat("p", 45+r.Intn(16)))...)
+			case 2:
+				if big > 0 {
+					m.Val = append(m.Val, bgen(int64(8176+r.Intn(10)), int64(1+r.Intn(3)))...)
+					big--
+				}
+			}
+		}
+		if s.Cfg.Idem && r.Intn(5) == 0 {
+			m.EncFail = true // Value.Encode() fails in produceSet.add after the message got its sequence number: the epoch is bumped
 		}
 		m.KeyNilIf, m.ValNilIf = r.Intn(2) == 0, r.Intn(2) == 0
 		if s.Cfg.Gen >= 2 {
@@ -461,6 +497,13 @@ func genE2E(r *rand.Rand, i int) *e2eScenario {
 		}
 		s.Script = append(s.Script, f)
 	}
+	for _, m := range s.Msgs {
+		if m.EncFail {
+			// an epoch bump in the middle of fault handling is C05's subject (batches re-formed with old sequence numbers):
+			// scenarios with failing encoders are answered without faults here
+			s.Script = nil
+		}
+	}
 	return s
 }
 
@@ -489,6 +532,40 @@ func chaserWitness() *e2eScenario {
 func e2eCorpus() []*e2eScenario {
 	ts := time.Unix(1600000000, 0)
 	out := []*e2eScenario{chaserWitness()}
+	// a batch re-sent by retryBatch (same RecordBatch object encoded a second time), record bodies of 60..70 and ~8190 bytes
+	for _, sz := range []int{52, 58, 59, 66, 8184, 8186} {
+		s := &e2eScenario{Cfg: genCfg{Gen: 2 + sz%2, Codec: 0, Level: sarama.CompressionLevelDefault, Idem: true, Pid: 4711, Epoch: 0},
+			Brokers: 1, Parts: []int{2}, LeaderlessA: []map[int32]bool{{}}, LeaderlessB: []map[int32]bool{{}},
+			RetryMax: 3, FlushMsgs: 2, AcksAll: true, Start: map[string]int64{"t0/0": 77, "t0/1": 4294967296 + 9},
+			Script: []fault{{Kind: fRetriable, Err: 19, Only: -1}}}
+		for j := 0; j < 2; j++ {
+			v := []byte(fmt.Sprintf("%d:", j+1))
+			if sz < 256 {
+				v = append(v, []byte(strings.Repeat("r", sz))...)
+			} else {
+				v = append(v, bgen(int64(sz), 2)...)
+			}
+			s.Msgs = append(s.Msgs, &genMsg{ID: int64(j + 1), Topic: 0, Val: v, TS: ts.Add(time.Duration(j) * time.Millisecond), KeyClass: "nil", ValClass: "edge"})
+			s.Choice = append(s.Choice, 1)
+			s.Consistent = append(s.Consistent, false)
+		}
+		out = append(out, s)
+	}
+	// an epoch bump while the broker worker's buffer is empty: m1 delivered, m2's Value encoder fails in add (after it got its
+	// sequence number: returnError bumps the epoch, sequences restart at 0), then m3 — which must be appended, not taken
+	// for a duplicate of m1
+	for _, sync := range []bool{true, false} {
+		s := &e2eScenario{Cfg: genCfg{Gen: 2, Codec: 0, Level: sarama.CompressionLevelDefault, Idem: true, Pid: 4712, Epoch: 0},
+			Brokers: 1, Parts: []int{1}, LeaderlessA: []map[int32]bool{{}}, LeaderlessB: []map[int32]bool{{}},
+			RetryMax: 3, FlushMsgs: 0, AcksAll: true, Start: map[string]int64{"t0/0": 1000}, Sync: sync}
+		for j := 0; j < 4; j++ {
+			s.Msgs = append(s.Msgs, &genMsg{ID: int64(j + 1), Topic: 0, Key: []byte(fmt.Sprintf("k%d", j+1)), Val: []byte(fmt.Sprintf("%d:v", j+1)),
+				TS: ts.Add(time.Duration(j) * time.Second), KeyClass: "corpus", ValClass: "id", EncFail: j == 1})
+			s.Choice = append(s.Choice, 0)
+			s.Consistent = append(s.Consistent, false)
+		}
+		out = append(out, s)
+	}
 	for gen := 0; gen < 4; gen++ {
 		for _, idem := range []bool{false, true} {
 			if idem && gen < 2 {
@@ -817,6 +894,11 @@ func runE2E(s *e2eScenario) (string, cf.Sidecar) {
 		}
 	}
 	desc["marker_events"] = markerEvents
+	c.rep.mu.Lock()
+	if len(c.rep.errs) > 0 {
+		fail("wire:undecodable-request", "a broker could not handle what the producer sent: "+c.rep.errs[0])
+	}
+	c.rep.mu.Unlock()
 	offered := map[int64]int32{}
 	for _, pc := range calls {
 		if pc.ID < 0 {
@@ -925,6 +1007,14 @@ func runE2E(s *e2eScenario) (string, cf.Sidecar) {
 		}
 	}
 
+	drops := false
+	for _, f := range s.Script {
+		drops = drops || f.Kind == fDropBefore || f.Kind == fDropAfter
+	}
+	// (after a dropped connection the messages are re-queued one by one and batches are re-formed: not a re-sent batch)
+	if len(c.differs) > 0 && !drops {
+		fail("wire:resend-differs", "a batch sent again (same producer id, epoch, first sequence, count) decodes to other records than the first time: "+c.differs[0])
+	}
 	// the Coq case
 	var msgTerms []string
 	for i, m := range s.Msgs {
